@@ -57,11 +57,13 @@ class HttpRun(object):
                 rh._verif_orig_get_connection = rh.get_connection
             run = self
             self.nconn_relay = 0
+            self.open_relay = 0
 
             def get_connection(url, context):
                 conn = rh._verif_orig_get_connection(url, context)
                 run.nconn_relay += 1
                 k = run.nconn_relay
+                run.open_relay += 1
                 run.log(t='conn', what='open', conn=k, act='ok')
                 state = {'open': True}
                 orig_close = conn.close
@@ -69,6 +71,7 @@ class HttpRun(object):
                 def close():
                     if state['open']:
                         state['open'] = False
+                        run.open_relay -= 1
                         run.log(t='conn', what='close', conn=k)
                     return orig_close()
                 conn.close = close
@@ -180,6 +183,11 @@ class HttpRun(object):
         self.greenlets.append(g)
         return g
 
+    def books(self):
+        """the pool's own books, at a point where every greenlet is parked: clients in the pool, requests waiting, connections held"""
+        vt.settle()
+        self.log(t='pool', n=len(self.relay.pool), q=len(self.relay.queue), oc=self.open_relay)
+
     def pump(self, seconds=0.3):
         """let real socket I/O happen"""
         end = 0
@@ -211,6 +219,8 @@ class HttpRun(object):
             while any(not g.ready() for g in self.greenlets) and not self._blocked_for_good() and _t.time() < t_end:
                 self.pump(0.1)
         hung = sum(1 for g in self.greenlets if not g.ready())
+        if self.relay_side and not hung:
+            self.books()
         self.log(t='end', hung=hung, open=0)
         for g in self.greenlets:
             g.kill(block=False)
